@@ -57,6 +57,16 @@ CHECKS["C08"] = dict(
    design="DESIGN.md 4 C08",
    note="Trusted: Coq kernel + vm_compute; harness iterables copy on load (user-code aliasing out of scope); aliasing itself is not representable in the functional model and is checked by the oracle only.",
    technique="Coq proof (purity) over hand-written Gallina model + lockstep correspondence + pickled deep-compare oracle")
+CHECKS["C14"] = dict(
+   text="Executable Gallina model of MultiNodeWeightedSampler (WeightedModel.v: the next() loop with all four stop criteria, exhausted flags, source restarts, "
+        "the batched choice stream with its (generator snapshot, offset) state, epoch handling) with theorems in Properties_C14.v quantified over ALL choice streams. "
+        "Correspondence: real sampler with 1-4 sources (lengths 0-7), random weights/seeds/ranks/world sizes, every criterion, histories with checkpoints and "
+        "resumes incl. across the 1000-draw batch boundary; the model is fed the reference multinomial stream the harness recomputes from (seed, rank, world_size, epoch, weights); "
+        "every item (tagged with its source), StopIteration and state dict compared; direct oracle for per-source order and the stop-criterion characterisations.",
+   design="DESIGN.md 4 C14",
+   note="Trusted: Coq kernel + vm_compute; torch.multinomial/Generator determinism; the harness's re-derivation of the rank/epoch seed is the specification of the seeding clause; "
+        "known finding D12 (empty source under a cycling criterion) is matched specifically.",
+   technique="Coq proof over hand-written Gallina model + lockstep correspondence (vm_compute) + direct oracle")
 props = [json.loads(l) for l in open(os.path.join(V, "properties.jsonl"))]
 checks, na = [], []
 for p in props:
